@@ -22,25 +22,23 @@
 (* Implementation layer: reg (what request_cache.get("proving-attestation", hash) returns), pend, the window. *)
 (* Deviation CreditBy = "hash" (negative control): on_challenge_response credits an answer to whichever       *)
 (* verification is registered under the attestation hash instead of the one its pending cache belongs to.     *)
-(* Deviation Reset = TRUE (negative control, see Reverify): a second verify_attestation_values while a round  *)
-(* is registered re-initialises that round's aggregate and challenges, answers to the old challenges that are *)
-(* still pending are counted into the new aggregate.                                                          *)
+(* verify_attestation_values while a round is registered is refused (the cache constructor raises "number     *)
+(* already in use"), so a round's challenges are created once: `g` (generation) is always 1 and only kept in    *)
+(* the records' shape.                                                                                          *)
 EXTENDS Naturals, Sequences, FiniteSets, TLC
 
 CONSTANTS BitSpace,   \* hash bits in the exhaustive model (the trace spec takes the bits from the trace)
           Honest,     \* Attest.tla's switch; TRUE here
           Window,     \* challenges sent at once by on_received_attestation (10 in the code)
-          MaxRounds, MaxGen, MaxHon, MaxDup,   \* bounds of the exhaustive model
-          CreditBy,   \* "object": the round the pending cache points to, if it still is the registered one
+          MaxRounds, MaxHon, MaxDup,   \* bounds of the exhaustive model
+          CreditBy    \* "object": the round the pending cache points to, if it still is the registered one
                       \* "hash"  : deviation
-          Reset       \* FALSE: answers to challenges the round no longer waits for are not counted; TRUE: deviation
 
 VARIABLES bits,       \* hash bits of the attested value
           revealed,   \* attestation slot -> pair sum, fixed when first decrypted (ONE attestation, all rounds)
           reg,        \* the round registered under the attestation hash (0: none)
-          rnd,        \* rounds: [st, open, agg, gen, rx, res]; st: "wait" (transfer) / "run" / "done" / "gone"
+          rnd,        \* rounds: [st, open, agg, gen, res]; st: "wait" (transfer) / "run" / "done" / "gone"
                       \*   open = slots not answered yet (hashed_challenges), gen = generation of its challenges,
-                      \*   rx = the attestation is being transferred once more (Reverify)
           pend,       \* PendingChallengeCaches: [k, g, i, hc]  (round, generation, slot or honesty serial, honesty value or 3)
           chal,       \* challenges in flight to the prover
           resp,       \* responses in flight to the verifier [k, g, i, hc, r]
@@ -63,24 +61,18 @@ PS == INSTANCE Attest WITH pending <- {}, answers <- <<>>, agg <- Zero, done <- 
 Init == /\ bits \in [1..BitSpace -> {0, 1}]
         /\ revealed = <<>> /\ reg = 0 /\ rnd = <<>> /\ pend = {} /\ chal = {} /\ resp = {} /\ nh = 0 /\ dup = 0
 
-NewRound == [st |-> "wait", open |-> {}, agg |-> Zero, gen |-> 0, rx |-> FALSE, res |-> <<>>]
+NewRound == [st |-> "wait", open |-> {}, agg |-> Zero, gen |-> 0, res |-> <<>>]
 
 (* verify_attestation_values while nothing is registered under the hash: a new round *)
 Verify == /\ reg = 0 /\ Len(rnd) < MaxRounds
           /\ rnd' = Append(rnd, NewRound) /\ reg' = Len(rnd) + 1
           /\ UNCHANGED <<bits, revealed, pend, chal, resp, nh, dup>>
 
-(* verify_attestation_values while a round is registered: request_cache.add refuses the new cache (its callback *)
-(* is lost), but the attestation is requested and received again; until then the round goes on                 *)
-Reverify == /\ reg # 0 /\ rnd[reg].st = "run" /\ ~rnd[reg].rx /\ rnd[reg].gen < MaxGen
-            /\ rnd' = [rnd EXCEPT ![reg].rx = TRUE]
-            /\ UNCHANGED <<bits, revealed, reg, pend, chal, resp, nh, dup>>
-
 (* on_received_attestation: the registered round gets its aggregate, its challenges and the first window *)
-Received == /\ reg # 0 /\ (rnd[reg].st = "wait" \/ rnd[reg].rx)
+Received == /\ reg # 0 /\ rnd[reg].st = "wait"
             /\ LET g == rnd[reg].gen + 1
                    w == {P(reg, g, i, NOHC) : i \in 1..(IF Window < NP THEN Window ELSE NP)} IN
-               /\ rnd' = [rnd EXCEPT ![reg] = [@ EXCEPT !.st = "run", !.open = Slots, !.agg = Zero, !.gen = g, !.rx = FALSE]]
+               /\ rnd' = [rnd EXCEPT ![reg] = [@ EXCEPT !.st = "run", !.open = Slots, !.agg = Zero, !.gen = g]]
                /\ pend' = pend \cup w /\ chal' = chal \cup w
             /\ UNCHANGED <<bits, revealed, reg, resp, nh, dup>>
 
@@ -120,7 +112,7 @@ OnResponse(x, keep) ==
             THEN /\ pend' = pend1 /\ UNCHANGED <<reg, rnd, chal, nh>>          \* its round is over: only the cache goes
             ELSE LET R == rnd[t]
                      own == x.hc = NOHC /\ x.k = t /\ x.g = R.gen /\ x.i \in R.open
-                 IN IF x.hc = NOHC /\ ~own /\ ~Reset /\ CreditBy = "object"
+                 IN IF x.hc = NOHC /\ ~own /\ CreditBy = "object"
                     THEN /\ pend' = pend1 /\ UNCHANGED <<reg, rnd, chal, nh>>  \* the round no longer waits for it
                     ELSE LET open1 == IF own THEN R.open \ {x.i} ELSE R.open
                              agg1 == IF x.hc = NOHC THEN [R.agg EXCEPT ![x.r] = @ + 1] ELSE R.agg
@@ -138,13 +130,12 @@ PendTimeout(p) == /\ p \in pend /\ pend' = pend \ {p}
                   /\ UNCHANGED <<bits, revealed, reg, rnd, chal, resp, nh, dup>>
 
 DoVerify      == Verify
-DoReverify    == Reverify
 DoReceived    == Received
 DoOnChallenge == \E x \in chal : \E r \in 0..2 : \E keep \in BOOLEAN : OnChallenge(x, r, keep)
 DoOnResponse  == \E x \in resp : \E keep \in BOOLEAN : OnResponse(x, keep)
 DoProvTimeout == ProvTimeout
 DoPendTimeout == \E p \in pend : PendTimeout(p)
-Next == DoVerify \/ DoReverify \/ DoReceived \/ DoOnChallenge \/ DoOnResponse \/ DoProvTimeout \/ DoPendTimeout
+Next == DoVerify \/ DoReceived \/ DoOnChallenge \/ DoOnResponse \/ DoProvTimeout \/ DoPendTimeout
 Spec == Init /\ [][Next]_vars
 
 -----------------------------------------------------------------------------
